@@ -409,7 +409,9 @@ pub fn check(tier: Tier) -> i32 {
             tick();
         }
     });
-    let st = selftest();
+    // the self-test runs the library too: on a tree that panics there it counts as failed (a verdict, if there is one,
+    // takes precedence over it)
+    let st = catch(|| selftest()).unwrap_or((1, 0));
     finish(
         RunInfo {
             prop: "C18",
